@@ -8,3 +8,23 @@ pub enum Error { FailedParse(String), TooManyDigits(String), Overflow }
 /// truncation toward zero
 pub open spec fn trunc_div(a: int, b: int) -> int { if a >= 0 { a / b } else { -((-a) / b) } }
 pub open spec fn fits_i64(m: int) -> bool { i64::MIN <= m <= i64::MAX }
+// ---- decimal("...") constructor: the string side is opaque, the arithmetic is checked ----
+/// what the regex `^(-?\d+)\.(\d+)$` captured: integer part (with optional sign) and fraction digits; None if the string does not match
+pub uninterp spec fn vx_spec_caps(s: &str) -> Option<(&str, &str)>;
+#[verifier::external_body] pub fn vx_decimal_caps(s: &str) -> (r: Option<(&str, &str)>) ensures r == vx_spec_caps(s) { unimplemented!() }
+/// the integer a string of (signed) decimal digits denotes, and basic facts about the captured pieces (trusted: str::parse, len, starts_with)
+pub uninterp spec fn str_int(s: &str) -> int;
+pub uninterp spec fn str_len(s: &str) -> nat;
+pub uninterp spec fn str_minus(s: &str) -> bool;
+#[verifier::external_body] pub fn vx_parse_i64(s: &str) -> (r: std::result::Result<i64, ()>) ensures r is Ok <==> fits_i64(str_int(s)), r is Ok ==> r->Ok_0 == str_int(s) { unimplemented!() }
+#[verifier::external_body] pub fn vx_len_u32(s: &str) -> (r: std::result::Result<u32, ()>) ensures r is Ok <==> str_len(s) <= 0xFFFF_FFFF, r is Ok ==> r->Ok_0 == str_len(s) { unimplemented!() }
+#[verifier::external_body] pub fn vx_starts_with_minus(s: &str) -> (r: bool) ensures r == str_minus(s) { unimplemented!() }
+#[verifier::external_body] pub fn vx_failed_parse(s: &str) -> (r: Error) ensures r is FailedParse { unimplemented!() }
+#[verifier::external_body] pub fn vx_too_many(s: &str) -> (r: Error) ensures r is TooManyDigits { unimplemented!() }
+pub open spec fn p10(n: nat) -> int { vstd::arithmetic::power::pow(10, n) }
+/// the number `l.f` scaled by 10^4: the sign is that of the *string* l (so that "-0.5" is negative)
+pub open spec fn dec_value(l: &str, f: &str) -> int { if str_minus(l) { str_int(l) * 10000 - str_int(f) * p10((4 - str_len(f)) as nat) } else { str_int(l) * 10000 + str_int(f) * p10((4 - str_len(f)) as nat) } }
+/// every intermediate result and the final value are representable
+pub open spec fn dec_fits(l: &str, f: &str) -> bool {
+    fits_i64(str_int(l)) && fits_i64(str_int(l) * 10000) && fits_i64(str_int(f)) && fits_i64(str_int(f) * p10((4 - str_len(f)) as nat)) && fits_i64(dec_value(l, f))
+}
